@@ -210,10 +210,16 @@ fn gen_header(rng: &mut Rng) -> Option<Header> {
     } else {
         h.push(*rng.pick(&JUNK_STARTS[..]));
     }
-    let target = match rng.weighted(&[30, 55, 15]) {
+    // header lengths: none, short, around BufReader's default 8192, and (rarely) around other
+    // plausible buffer sizes, so that a change of buffering does not move the interesting
+    // boundary out of reach
+    let target = match rng.weighted(&[300, 550, 130, 8, 8, 4]) {
         0 => 0,
         1 => rng.range_usize(1, 40),
-        _ => rng.range_usize(8185, 8200),
+        2 => rng.range_usize(8185, 8200),
+        3 => rng.range_usize(4090, 4100),
+        4 => rng.range_usize(16378, 16392),
+        _ => rng.range_usize(65530, 65542),
     };
     while h.len() < target {
         if target > 100 && h.len() + 64 < target {
